@@ -48,6 +48,38 @@ idx_t dtw_best_path{{suffix}}{{suffix2}}(seq_t *wps, idx_t *i1, idx_t *i2, idx_t
                     {%- endif %}
                     DTWSettings *settings) {
     DTWWps p = dtw_wps_parts(l1, l2, settings);
+    {%- if ("affinity" not in suffix) and ("customstart" not in suffix) and (use_isclose != 1) %}
+    // Cells skipped by the psi-relaxation at the end of the series are marked with -1: a run in
+    // the last column or in the last row that starts in the lower right corner. Comparing values
+    // with them would allow to leave that line diagonally and miss the cell in which the best
+    // path ends; skip them first and trace back from the cell after the run.
+    if (dtw_wps_value(&p, wps, l1, l2, l1, l2) == -1) {
+        idx_t rs = l1;
+        idx_t cs = l2;
+        bool go_up;
+        if (dtw_wps_value(&p, wps, rs - 1, cs, l1, l2) == -1) {
+            go_up = true;
+        } else if (dtw_wps_value(&p, wps, rs, cs - 1, l1, l2) == -1) {
+            go_up = false;
+        } else if (settings->psi_2e == 0) {
+            go_up = true;
+        } else if (settings->psi_1e == 0) {
+            go_up = false;
+        } else {
+            go_up = (dtw_wps_value(&p, wps, rs - 1, cs, l1, l2) <= dtw_wps_value(&p, wps, rs, cs - 1, l1, l2));
+        }
+        while (dtw_wps_value(&p, wps, rs, cs, l1, l2) == -1) {
+            if (go_up) {
+                if (rs <= 1) { break; }
+                rs--;
+            } else {
+                if (cs <= 1) { break; }
+                cs--;
+            }
+        }
+        return dtw_best_path_customstart(wps, i1, i2, l1, l2, rs, cs, settings);
+    }
+    {%- endif %}
 
     idx_t i = 0;
     {%- if ("affinity" in suffix) or ("customstart" in suffix) %}
